@@ -179,6 +179,16 @@ def run_sessions(sessions):
                         b = "ValueError"
                 if b != "ok":
                     res.append({"build": b}); continue
+                if step.get("pt_reject"):
+                    # an unrelated PyTree check that is REJECTED (its leaves disagree on an axis nobody else uses) and one that raises, just
+                    # before this check: a rejected / raising check leaves no trace, also not in the call's argument memo
+                    from jaxtyping import PyTree as _PT, AnnotationError as _AE
+                    import numpy as np
+                    try:
+                        isinstance((np.zeros((3,), "float32"), np.zeros((4,), "float32")), _PT[jaxtyping.Float[np.ndarray, "zz_"]])
+                        isinstance((np.zeros((3,), "float32"),), _PT[jaxtyping.Float[np.ndarray, "zz_+unbound_"], "ZZ_"])
+                    except _AE:
+                        pass
                 before = copy.deepcopy([dict(m) for m in get_shape_memo()[:3]])
                 before_txt = show_memo(get_shape_memo())
                 v = do_check(ann, val)
